@@ -17,6 +17,9 @@
 (*   castw s.x = T.(w), w of a struct / array type whose members are wider *)
 (*         and in another order (member-wise converting cast)              *)
 (*   elem0 / elem1  s.x[k] = v          local x is a local between guards   *)
+(*   litrev  S is BUILT by a struct literal whose members are written in    *)
+(*           reverse order, x copied from a variable                        *)
+(*   cadd / caddw  s.x += v for an integer x, v of the same type / a u64    *)
 (* The property is the frame condition: every byte outside the stored-to    *)
 (* object keeps its value; and value semantics: afterwards the object holds *)
 (* the stored value (its defined bytes; padding is unconstrained).          *)
@@ -100,11 +103,13 @@ Img(t, sd) ==
       [] t.k = "void" -> <<>>
 
 (* ------------------------------------------------------------------- cases *)
-Kinds == {"copy", "lit", "conv", "arg", "ptr", "cast", "castw", "elem0", "elem1", "local"}
+Kinds == {"copy", "lit", "conv", "arg", "ptr", "cast", "castw", "elem0", "elem1", "local", "litrev", "cadd", "caddw"}
 Applies(t, kd) ==
     CASE kd = "conv" -> t.k \in {"enum", "opt", "eu"}
       [] kd = "cast" -> t.k \in {"struct", "anonstruct"}
       [] kd = "castw" -> t \in CastWTys
+      [] kd = "cadd" -> t.k = "int"
+      [] kd = "caddw" -> t.k = "int" /\ t.w < 64     \* the right-hand side is a u64 (if the checker accepts that)
       [] OTHER -> TRUE
 Guard == <<201, 202, 203, 204, 205, 206, 207, 208>>
 Cases == {[t |-> t, kind |-> kd, a |-> sa, b |-> sb] :
@@ -125,8 +130,13 @@ Build == /\ pc = "init" /\ pc' = "built" /\ UNCHANGED c
          /\ mem' = Overlay(Place(InitX(c), 0, XSize(c) + 8), Place(Guard, XSize(c), XSize(c) + 8))
 (* the store: inside the target the new value's bytes (undefined where the new value has
    padding or an inactive payload), every other byte as before *)
+(* the value the store puts into the target: the new value, or for += the byte-wise sum (the
+   generated bytes are <= 120, so no byte carries into the next) *)
+NewImg(x) == IF x.kind \in {"cadd", "caddw"}
+             THEN [j \in 1..MSize(x.t) |-> IntByte(x.a, j) + IntByte(x.b, j)]
+             ELSE Img(x.t, x.b)
 Store == /\ pc = "built" /\ pc' = "stored" /\ UNCHANGED c
-         /\ LET new == Place(Img(c.t, c.b), Target(c).off, XSize(c) + 8) IN
+         /\ LET new == Place(NewImg(c), Target(c).off, XSize(c) + 8) IN
             mem' = [k \in 1..Len(mem) |->
                       IF k > Target(c).off /\ k <= Target(c).off + Target(c).len
                       THEN new[k]      \* inside the target: the new value; its padding is unconstrained (-1)
@@ -140,5 +150,5 @@ Frame == [][pc = "built" =>
 GuardsIntact == pc \in {"built", "stored"} => SubSeq(mem, XSize(c) + 1, XSize(c) + 8) = Guard
 Emitted == pc = "stored" =>
     PrintT("CASE " \o ToJson([t |-> c.t, kind |-> c.kind, size |-> XSize(c), stride |-> MStride(c.t),
-                              ta |-> Tree(c.t, c.a), tb |-> Tree(c.t, c.b), after |-> mem]))
+                              ta |-> Tree(c.t, c.a), tb |-> Tree(c.t, c.b), seed_b |-> c.b, after |-> mem]))
 ================================================================================
